@@ -225,7 +225,7 @@ impl Proj {
 
 pub const INJECTED_TYPES: &[&str] = &["AppHandle", "tauri::AppHandle", "State<'_, AppState>", "tauri::State<'_, AppState>", "tauri::Window", "WebviewWindow", "tauri::ipc::Request<'_>"];
 pub const VALIDATE_POOL_STR: &[&str] = &["length(min = 1)", "length(min = 2, max = 40)", "email", "url", "length(max = 10, message = \"too long\")", "length(min = 1, message = \"Name fehlt – bitte ausfüllen\")", "length(min = 3, message = \"say \\\"hi\\\"\")"];
-pub const VALIDATE_POOL_NUM: &[&str] = &["range(min = 1, max = 100)", "range(min = 0)", "range(max = 9.5)", "range(min = 18, message = \"must be an adult\")", "range(min = -10, max = 10)"];
+pub const VALIDATE_POOL_NUM: &[&str] = &["range(min = 1, max = 100)", "range(min = 0)", "range(max = 9.5)", "range(min = 18, message = \"must be an adult\")", "range(min = -10, max = 10)", "range(min = 1, message = \"pick a \\\"small\\\" level\")", "range(max = 5, message = \"back\\\\slash – ünï\")", "range(min = 0, max = 9, message = \"line\\nbreak\")"];
 
 /// Generate a project. With `safe`, input classes with known defects of *other* properties are
 /// avoided (each avoided choice is reported through `avoided`).
